@@ -413,6 +413,8 @@ func (r *RemoteList) RefreshFromHandshake(vpnAddrs []netip.Addr) {
 	r.badRemotes = nil
 	r.vpnAddrs = make([]netip.Addr, len(vpnAddrs))
 	copy(r.vpnAddrs, vpnAddrs)
+	// Previously blocked remotes (and DNS results filtered by the old vpnAddrs) must be collected again
+	r.shouldRebuild = true
 	r.Unlock()
 }
 
@@ -420,6 +422,8 @@ func (r *RemoteList) RefreshFromHandshake(vpnAddrs []netip.Addr) {
 func (r *RemoteList) ResetBlockedRemotes() {
 	r.Lock()
 	r.badRemotes = nil
+	// Previously blocked remotes are only put back into addrs by a re-collect
+	r.shouldRebuild = true
 	r.Unlock()
 }
 
